@@ -114,6 +114,8 @@ NAME_WITNESS_TARGETS = ["Align", "Align1", "Align2", "Align10", "Chunk1", "Chunk
 NAME_WITNESS_PATTERNS = [
     ["Align"], ["Align*"], ["Align?"], ["Align??"], ["Chunk[12]"], ["Chunk[!1]"], ["*1"], ["nomatch"], ["Align1", "Chunk2"],
     ["A*", "C*"], ["Align*", "Align1"], ["a.b"], ["a?b"], ["*"], [],
+    # near misses: a name that matches nothing selects nothing, however close it is to an existing one (an off-by-one over generated names, a typo, another case)
+    ["Align12"], ["Align3"], ["Chunk"], ["align1"], ["Other"], ["Align1 "],
 ]
 
 
@@ -422,7 +424,11 @@ FATAL_DISPOSITIONS = {
     ("SIGCHLD", "SIG_IGN"): ("C13", "with SIGCHLD ignored the kernel reaps children itself: waitpid() fails with ECHILD, asyncio reports exit status 255 for every task, so tasks "
                                     "that exited 0 end as failed"),
     ("SIGHUP", "SIG_DFL"): (None, ""),
+    ("SIGINT", "SIG_DFL"): ("C09", "with SIGINT at its default disposition Control-c kills the process outright instead of raising KeyboardInterrupt: no with-block is left, so "
+                                   "neither state file is written - every job accepted before the interruption is forgotten and submitted again by the next run"),
 }
+POOL_ROOTS = ("gwf.cli:main", "gwf.plugins.workers:workers", "gwf.backends.local:start_cluster", "gwf.backends.local:start_cluster_async", "gwf.backends.local:Server.start_server")
+RUN_ROOTS = ("gwf.cli:main", "gwf.plugins.run:run", "gwf.scheduling:submit_workflow")
 
 
 def signal_calls(tree, canon):
@@ -439,7 +445,7 @@ def signal_calls(tree, canon):
     return out
 
 
-def rule_signal_dispositions(ctx, r, prop):
+def rule_signal_dispositions(ctx, r, prop, roots=POOL_ROOTS):
     """No code of the package installs a process-wide signal disposition that defeats `prop` (the table above).  Expected count on a healthy tree: zero call sites,
     so the matcher is exercised on a built-in positive example at every run."""
     import ast
@@ -459,7 +465,7 @@ def rule_signal_dispositions(ctx, r, prop):
     # the code that runs in the pool's process: module level of every module (plugins are imported by every command), cli.main, the workers command and the pool itself
     from ..index import enclosing_function
     reach = set()
-    for root in ("gwf.cli:main", "gwf.plugins.workers:workers", "gwf.backends.local:start_cluster", "gwf.backends.local:start_cluster_async", "gwf.backends.local:Server.start_server"):
+    for root in roots:
         try:
             v_, _e, _u = ctx.resolver.reach(ctx.index.func(root))
             reach |= {k[0] for k in v_}
@@ -479,7 +485,7 @@ def rule_signal_dispositions(ctx, r, prop):
             # a nested function belongs to the function that defines it
             on_path = enc is None or finfo is None or finfo.key in reach
             if p == prop and not on_path:
-                r.ok(con, f"installed in {finfo.key}, which the pool's process never runs", loc(call, mod))
+                r.ok(con, f"installed in {finfo.key}, which the process in question never runs", loc(call, mod))
             elif p == prop:
                 r.violation(con, f"`{ast.unparse(call)}` changes a process-wide signal disposition: {why}", loc(call, mod))
             else:
